@@ -257,7 +257,7 @@ Proof.
   - (* ABump *)
     pose proof H as H0. destruct H0 as [Hp Ht Hb Hi Hf Hpa He Hd Hpn].
     destruct s as [cp ep nx q dr en cl p ex pe clm wi pa res pn]. unfold phase_inv in Hp. cbn in *.
-    destruct p; try exact H. destruct Hp as [(w & Hw & Ha) Hen]. subst.
+    destruct p; try exact H. unfold wire_done in Hp; cbn in Hp. destruct Hp as [(w & Hw & Ha) Hen]. subst.
     constructor; cbn; try assumption; try reflexivity.
     + unfold phase_inv; cbn. repeat split; reflexivity.
     + apply (id_bound_weaken (conns_epoch 1 pa, nx)); [assumption | cbn; lia].
@@ -448,8 +448,9 @@ Proof.
       apply andb_true_iff in H. destruct H as [_ H].
       eapply ids_inc_lt; [exact H | eapply nth_error_In; exact Hj | exact Hb | reflexivity].
     + cbn in Hi. cbn in H. destruct (r_id x).
-      * apply andb_true_iff in H. destruct H as [_ H]. eapply IH; try eassumption. lia.
-      * eapply IH; try eassumption. lia.
+      * apply andb_true_iff in H. destruct H as [_ H].
+        assert (Hlt' : (i < j)%nat) by lia. exact (IH _ H i j ri rj Hi Hj Hlt' a b Ha Hb).
+      * assert (Hlt' : (i < j)%nat) by lia. exact (IH _ H i j ri rj Hi Hj Hlt' a b Ha Hb).
 Qed.
 
 Lemma ids_unique : forall c acts i j ri rj a,
@@ -459,8 +460,9 @@ Lemma ids_unique : forall c acts i j ri rj a,
 Proof.
   intros c acts i j ri rj a Hi Hj Ha Hb.
   pose proof (i_inc _ (inv_run acts _ (inv_init c))) as H.
-  assert (Hirr : eid_ltb a a = false) by (unfold eid_ltb; destruct a; cbn; lia).
-  destruct (Nat.lt_trichotomy i j) as [Hlt | [Heq | Hgt]]; [| assumption |].
+  assert (Hirr : eid_ltb a a = false) by (destruct a as [a1 a2]; unfold eid_ltb; cbn [fst snd]; rewrite !N.ltb_irrefl, andb_false_r; reflexivity).
+  assert (Htri : (i < j)%nat \/ i = j \/ (j < i)%nat) by lia.
+  destruct Htri as [Hlt | [Heq | Hgt]]; [| assumption |].
   - rewrite (ids_inc_nodup _ _ H i j ri rj Hi Hj Hlt a a Ha Hb) in Hirr. discriminate.
   - rewrite (ids_inc_nodup _ _ H j i rj ri Hj Hi Hgt a a Hb Ha) in Hirr. discriminate.
 Qed.
